@@ -25,7 +25,7 @@ def lenient_unique(b):
 
 
 def classify(r):
-    if r['g'] == 'bus' and lenient_unique(r['b']) and r['int'] == 1 and r['pub'] in (1, -1) and r['msg'] in (1, -1):
+    if r['g'] in ('bus', 'busns') and lenient_unique(r['b']) and r['int'] == 1 and r['pub'] in (1, -1) and r['msg'] in (1, -1):
         return 'syntax:bus:lenient-unique-name'
     if r['g'] in ('sig', 'sig1') and r['int'] in (1, -1) and r['pub'] in (1, -1):
         t = bytes(r['b'])
